@@ -587,6 +587,60 @@ func runC07(r *engine.Run) {
 		}
 	})
 
+	// ---- the command sequences of length 0..3 on port 0 through the decrypting entry point: a frame is
+	// built with the sequence, encrypted, sent, and DecryptFRMPayload gives exactly the sequence back -
+	// the empty sequence included (FPort 0 with no payload is a frame)
+	r.PartDims("streams/port0-through-decrypt", []string{"direction:2", "sequence length:0..3", "first CID (inner)"}, 2*4, func(c *engine.Case) {
+		uplink := c.Index%2 == 1
+		n := int(c.Index / 2)
+		cids := spec.DirCIDs(uplink)
+		key := keyOf(c02Keys[1])
+		mt := lorawan.UnconfirmedDataDown
+		if uplink {
+			mt = lorawan.UnconfirmedDataUp
+		}
+		for _, first := range cids {
+			c.Eval()
+			var want []spec.Cmd
+			for k := 0; k < n; k++ {
+				want = append(want, spec.Example(uplink, cids[(int(first)+k*7)%len(cids)]))
+			}
+			if n > 0 {
+				want[0] = spec.Example(uplink, first)
+			}
+			cmds, err := libCmds(uplink, want)
+			if err != nil {
+				c.Fail("harness/build", err.Error(), nil)
+				return
+			}
+			port := uint8(0)
+			p := lorawan.PHYPayload{MHDR: lorawan.MHDR{MType: mt, Major: lorawan.LoRaWANR1}, MACPayload: &lorawan.MACPayload{FHDR: lorawan.FHDR{DevAddr: lorawan.DevAddr{1, 2, 3, 4}, FCnt: 3}, FPort: &port, FRMPayload: cmds}}
+			if err := p.EncryptFRMPayload(key); err != nil {
+				c.Fail("streams/port0-through-decrypt/encrypt", fmt.Sprintf("sequence %x (uplink=%v): %v", spec.CmdBytes(want), uplink, err), nil)
+				continue
+			}
+			wire, err := p.MarshalBinary()
+			if err != nil {
+				c.Fail("streams/port0-through-decrypt/encode", fmt.Sprintf("sequence %x (uplink=%v): %v", spec.CmdBytes(want), uplink, err), nil)
+				continue
+			}
+			var q lorawan.PHYPayload
+			if err := q.UnmarshalBinary(wire); err != nil {
+				c.Fail("streams/port0-through-decrypt/decode", fmt.Sprintf("%x: %v", wire, err), nil)
+				continue
+			}
+			q.MACPayload.(*lorawan.MACPayload).FHDR.FCnt = 3
+			c.NonTrivial()
+			if err := q.DecryptFRMPayload(key); err != nil {
+				c.Fail("streams/port0-through-decrypt/decrypt-error", fmt.Sprintf("port-0 frame %x carrying the %d-command sequence %x (uplink=%v): DecryptFRMPayload: %v", wire, n, spec.CmdBytes(want), uplink, err), nil)
+				continue
+			}
+			if msg := sameCmds(uplink, q.MACPayload.(*lorawan.MACPayload).FRMPayload, want); msg != "" {
+				c.Fail("streams/port0-through-decrypt/sequence-differs", fmt.Sprintf("port-0 frame %x (uplink=%v): %s", wire, uplink, msg), nil)
+			}
+		}
+	})
+
 	// ---- a refused encoding before a valid one: FOpts (and a port-0 payload) whose first command encodes
 	// and whose second is out of range is refused; the next valid sequence still decodes into exactly
 	// itself. One worker: what a refused call leaves behind is process state.
